@@ -292,6 +292,12 @@ def run(ctx):
                 ctx.corr_failures.append({"what": "harness could not drive the endpoint: " + r[:200]})
         dist["estimate_edge_outcomes_" + prof] = outcomes
 
+    # ---- 4. the session level: ping / stats / wait recommendations on real sessions (L4 simulation)
+    from . import families as F
+    from .simrun import run_scenarios
+    run_scenarios(ctx, F.fam_ping(ctx.rng, 400 if ctx.thorough else 70), {"C15", "PANIC"}, "ping")
+    run_scenarios(ctx, F.fam_lead(ctx.rng, 100 if ctx.thorough else 12), {"C15", "PANIC"}, "lead")
+
     ctx.cov["exhaustive"] = False
     ctx.cov["rule"] = ("windows: for every lead k in -7..=7 EVERY pair (local sum, remote sum) of the steady bands "
                        "(%d pairs) is driven through TimeSync on the real code together with the mirrored peer; plus seeded histories "
